@@ -331,7 +331,7 @@ class MCIntegrator:
         tries = 0
         while tries < self.options['norm_steps']:
             tries += 1
-            if (t_final - t_prev) < self.options['norm_t_tol']:
+            if t_final <= t_prev + self.options['norm_t_tol']:
                 t_guess = t_final
                 _, state = self._integrator.get_state()
                 break
